@@ -539,6 +539,17 @@ theorem ploidy_15_only_by_index :
     obtain ⟨g, h1, h2, h3, _⟩ := ctor_index_roundtrip i 15 15 (by omega) (by omega) (by omega) (by omega) hi
     exact ⟨g, h1, h3, h2⟩
 
+/-- after `fixes/F55.patch` the advertised maximum is true: every vector of at most `MAX_PLOIDY - 1` alleles `< 16` is accepted -/
+theorem repaired_max_ploidy_constructible (l : List Nat) (hp : l.length ≤ getMaxGenotypePloidyRepaired)
+    (ha : ∀ a ∈ l, a < getMaxGenotypeAlleles) : ∃ g, Genotype.ofAlleles l = .ok g ∧ g.getPloidy = l.length := by
+  have hp' : l.length < 15 := by
+    have : getMaxGenotypePloidyRepaired = 14 := rfl
+    omega
+  obtain ⟨g, h1, h2, _⟩ := ofAlleles_ok l hp' ha
+  exact ⟨g, h1, h2⟩
+
+example : (List.replicate 14 15).length ≤ getMaxGenotypePloidyRepaired ∧ ∀ a ∈ List.replicate 14 15, a < getMaxGenotypeAlleles := by decide
+
 /-- the fuel of the model's final loop is never exhausted (`get_position(16)` throws after at most 16 rounds) -/
 theorem final_loop_fuel_suffices (g : Genotype) (bound fuel : Nat) (hf : 17 ≤ fuel) :
     checkLoopC g bound fuel 0 = checkLoopC g bound 17 0 :=
